@@ -17,6 +17,7 @@ SPEC = os.path.join(facts.VERIF, 'engine', 'spec', 'datatypes.json')
 
 
 def r1(ctx):
+    ctx.mark('type-table', 'C05.R1')
     ctx.rule('C05.R1', 'every built-in data type row (id, bit count, flags, replacement, min, max / first bit, divisor, '
              'date/time shape, hex) equals the reference table engine/spec/datatypes.json, no row is missing or added, and '
              'each row satisfies the invariants of its kind: widths 1..32 (strings/dates by length), bit types fit one '
@@ -330,6 +331,38 @@ def r6(ctx):
         missing = sorted(MJD_INTS[name] - ints)
         ctx.ob('C05.R6', fn, fn.body, not missing, 'epoch constants in %s' % name.split('::')[-1],
                'missing %s' % missing if missing else 'all present')
+    # every instance of the two quotients of the algorithm carries its own offset: (mjd - 15078.2) / 365.25 and
+    # (mjd - 14956.1 - int(y' * 365.25)) / 30.6001 (a copy of the formula with the fraction dropped is wrong on 29 February)
+    def _lits(f, x):
+        out = []
+        for y in f.walk(x):
+            v = f.nodes[y]
+            if v['k'] == 'FloatingLiteral':
+                try:
+                    out.append(round(float(v.get('fv')), 6))
+                except (TypeError, ValueError):
+                    pass
+            elif v['k'] == 'IntegerLiteral' and v.get('v', 0) > 1000:
+                out.append(float(v['v']))
+        return out
+    for name in MJD_FLOATS:
+        fn = fb.fn(name)
+        for x, v in sorted(fn.nodes.items()):
+            if v['k'] != 'BinaryOperator' or v.get('op') != '/':
+                continue
+            r = fn.nodes[fn.strip(v['rhs'], casts=True)]
+            if r.get('k') != 'FloatingLiteral':
+                continue
+            try:
+                d = round(float(r.get('fv')), 6)
+            except (TypeError, ValueError):
+                continue
+            if d == 365.25:
+                offs = [c for c in _lits(fn, v['lhs']) if 15000 <= c <= 15100]
+                ctx.ob('C05.R6', fn, x, offs == [15078.2], 'year quotient in %s' % name.split('::')[-1], 'offset %s, the algorithm uses 15078.2' % offs)
+            elif d == 30.6001:
+                offs = [c for c in _lits(fn, v['lhs']) if 14900 <= c <= 15000]
+                ctx.ob('C05.R6', fn, x, offs == [14956.1], 'month quotient in %s' % name.split('::')[-1], 'offset %s, the algorithm uses 14956.1' % offs)
     # the January/February adjustment of the algorithm: encoding subtracts a year and adds 12 months exactly for months
     # 1 and 2; decoding (month index m' - 1 in 3..14) carries 13 and 14 into the next year
     import re
@@ -381,7 +414,55 @@ def r6(ctx):
         raise AnalysisBroken('C05.R6: January/February adjustment sites not recognised (%d encode, %d decode)' % (n, m))
 
 
+def r11(ctx):
+    ctx.rule('C05.R11', 'exactly one 16 bit pattern of the KNX float (DPT 9) means "invalid": the condition under which uint16ToFloat '
+             'returns NAN, evaluated for all 65536 patterns, holds for precisely the constant(s) that floatToUint16 emits for a '
+             'value it cannot encode; every other pattern is a number (0xffff is -327.68)', minimum=1)
+    import tinyeval
+    fb = ctx.fb
+    dec = fb.fn('ebusd::uint16ToFloat')
+    enc = fb.fn('ebusd::floatToUint16')
+    ctx.touch(dec)
+    ctx.touch(enc)
+    nanrets = [r for r in dec.all('ReturnStmt') if dec.nodes[r].get('val') is not None and
+               ('nan' in dec.key(dec.nodes[r]['val']).lower() or dec.nodes[dec.strip(dec.nodes[r]['val'], casts=True)].get('k') == 'FloatingLiteral' and
+                str(dec.nodes[dec.strip(dec.nodes[r]['val'], casts=True)].get('fv')).lower() == 'nan')]
+    if not nanrets:
+        raise AnalysisBroken('C05.R11: NAN return of uint16ToFloat not found')
+    conds = []
+    for r in nanrets:
+        p = dec.parent(r)
+        child = r
+        while p is not None:
+            v = dec.nodes[p]
+            if v['k'] == 'IfStmt' and v.get('then') is not None and (child == v['then'] or child in set(dec.walk(v['then']))):
+                conds.append(v['cond'])
+                break
+            child = p
+            p = dec.parent(p)
+    pd = dec.params[0]['decl']
+    nanset = set()
+    try:
+        for val in range(65536):
+            m = tinyeval.Machine(dec, {}, [])
+            m.locals[pd] = val
+            if any(m.rv(c) for c in conds):
+                nanset.add(val)
+    except tinyeval.Unknown as e:
+        raise AnalysisBroken('C05.R11: NAN condition not evaluable (%s)' % e)
+    marks = set()
+    for r in enc.all('ReturnStmt'):
+        rv = enc.nodes[r].get('val')
+        x = enc.nodes[enc.strip(rv, casts=True)] if rv is not None else {}
+        if x.get('k') == 'IntegerLiteral' and enc.val(rv) not in (0, None):
+            marks.add(enc.val(rv))
+    ctx.ob('C05.R11', dec, conds[0] if conds else dec.body, bool(marks) and nanset == marks, 'invalid marker of the 16 bit float',
+           'decoded as NAN: %s pattern(s) %s; emitted by the encoder for an invalid value: %s' % (
+               len(nanset), ['%04x' % v for v in sorted(nanset)[:4]], ['%04x' % v for v in sorted(marks)]))
+
+
 def run(ctx):
+    r11(ctx)
     r6(ctx)
     r1(ctx)
     r2(ctx)
